@@ -283,7 +283,9 @@ theorem C13_car_is_the_C01_reader (car : Bytes) (off size : Nat) (want : Bytes) 
     `ReadByte` call in the reader files that lies on an open or lookup path either returns the error or compares
     the byte count with the buffer length.  The EOF-tolerant sites (prefetch in `GetBucket`, `Bucket.Load`,
     `isReaderEmpty`, `Manifest.readAllContent`) are listed by function in the extractor, each with the reason why it
-    is not on a lookup path. -/
+    is not on a lookup path; for the prefetch the reason "bytes discarded" is itself checked (the buffer is not
+    mentioned again after the read), so a change that starts serving lookups from that buffer puts the site back
+    on the lookup path and breaks this `decide`. -/
 theorem readsites_ok : ∀ s ∈ Generated.readSites, s.onLookupPath = true →
     (s.cls = .propagated ∨ s.cls = .comparedWithLen) := by decide
 
